@@ -27,6 +27,9 @@ func pickGrammar(filter func(g *Grammar) bool) *Grammar {
 	if rt.Param("trimshapes", 0) == 1 {
 		all = TrimShapes()
 	}
+	if rt.Param("trimshapes", 0) == 2 {
+		all = TrimFree()
+	}
 	var sel []*Grammar
 	for _, g := range all {
 		if filter == nil || filter(g) {
